@@ -110,14 +110,40 @@ type ExploreOpts struct {
 // falls back to exploring every schedule with at most FallbackBound preemptions.
 func ExploreAuto(sc *Scenario, opts ExploreOpts) *ExploreStats {
 	st := Explore(sc, opts)
+	if sc.PreemptBound > 1 && !st.Exhaustive && len(st.Violations) == 0 && st.Infra == "" && strings.HasPrefix(st.CapHit, "state cap") {
+		for b := sc.PreemptBound - 1; b >= 1; b-- {
+			sc2 := *sc
+			sc2.PreemptBound = b
+			s2 := Explore(&sc2, opts)
+			s2.States += st.States
+			s2.Transitions += st.Transitions
+			s2.Executions += st.Executions
+			s2.Fallback = fmt.Sprintf("bound %d exceeded the state cap; completed all schedules with <= %d preemptions", sc.PreemptBound, b)
+			st = s2
+			if s2.Exhaustive || !strings.HasPrefix(s2.CapHit, "state cap") {
+				break
+			}
+		}
+		return st
+	}
 	if st.Exhaustive || opts.FallbackBound == 0 || len(st.Violations) > 0 || st.Infra != "" || sc.PreemptBound > 0 || !strings.HasPrefix(st.CapHit, "state cap") {
 		return st
 	}
-	sc2 := *sc
-	sc2.PreemptBound = opts.FallbackBound
-	o2 := opts
-	o2.MaxStates = 50_000_000
-	st2 := Explore(&sc2, o2)
+	var st2 *ExploreStats
+	for b := opts.FallbackBound; b >= 1; b-- {
+		sc2 := *sc
+		sc2.PreemptBound = b
+		o2 := opts
+		o2.MaxStates = boundedStateCap
+		st2 = Explore(&sc2, o2)
+		if st2.Exhaustive || len(st2.Violations) > 0 || st2.Infra != "" || !strings.HasPrefix(st2.CapHit, "state cap") {
+			break
+		}
+		// even the bounded search is too large for the memory cap: complete a smaller bound instead
+		st.States += st2.States
+		st.Transitions += st2.Transitions
+		st.Executions += st2.Executions
+	}
 	st2.UnboundedStates = st.States
 	st2.States += st.States
 	st2.Transitions += st.Transitions
@@ -134,11 +160,14 @@ func ExploreAuto(sc *Scenario, opts ExploreOpts) *ExploreStats {
 	if st.MaxPreempt > st2.MaxPreempt {
 		st2.MaxPreempt = st.MaxPreempt
 	}
-	st2.Fallback = fmt.Sprintf("unbounded search stopped at %d states; completed all schedules with <= %d preemptions instead", st.States, opts.FallbackBound)
+	st2.Fallback = fmt.Sprintf("unbounded search stopped at the state cap; completed all schedules with <= %d preemptions instead", st2.BoundDone)
 	return st2
 }
 
 const defaultMaxStates = 3_000_000
+
+// boundedStateCap limits the visited set of one preemption-bounded search (9 bytes per state, 16 workers).
+const boundedStateCap = 12_000_000
 
 // noSleepSets disables the sleep-set reduction (used to cross-check it).
 var noSleepSets = false
@@ -241,8 +270,8 @@ func Explore(sc *Scenario, opts ExploreOpts) *ExploreStats {
 	if maxStates == 0 {
 		maxStates = defaultMaxStates
 	}
-	if sc.PreemptBound > 0 && maxStates < 50_000_000 {
-		maxStates = 50_000_000 // a bounded search is finite by construction; only the deadline stops it
+	if sc.PreemptBound > 0 && maxStates < boundedStateCap {
+		maxStates = boundedStateCap // a bounded search is finite by construction; the cap only protects memory (16 workers)
 	}
 	if opts.MaxViolations == 0 {
 		opts.MaxViolations = 3
